@@ -35,7 +35,8 @@ def scn_async(rnd, sid):
     s = {"id": sid, "mode": rnd.choice(["logger", "logger", "bare"]), "producers": n,
          "msgs": rnd.randint(2, max(2, min(25, 200 // n))),
          "jitter": rnd.choice([0, 10, 30, 60]), "seed": rnd.randrange(1 << 30), "sinkDelayUs": rnd.choice([0, 0, 100, 500]),
-         "pre": ["move"], "script": [], "script2": [], "heapctx": rnd.random() < 0.7, "gate": gated, "kind": "async"}
+         "pre": rnd.choice([["move"], ["move", "install"]]), "script": [], "script2": [], "heapctx": rnd.random() < 0.7,
+         "gate": gated, "kind": "async"}
     if gated:
         s["script"] = ["waitProducers", "openGate"]
     return s
@@ -55,7 +56,7 @@ def scn_life(rnd, sid):
             ops2.append(rnd.choice(["reset", "reset", "move"]))
     return {"id": sid, "mode": rnd.choice(["logger", "logger", "bare"]), "producers": n, "msgs": rnd.randint(3, 30),
             "jitter": rnd.choice([10, 30, 60]), "seed": rnd.randrange(1 << 30), "sinkDelayUs": rnd.choice([0, 100, 1000, 3000]),
-            "pre": rnd.choice([["move"], ["move"], []]), "script": ops, "script2": ops2,
+            "pre": rnd.choice([["move"], ["move", "install"], ["move", "install"], []]), "script": ops, "script2": ops2,
             "heapctx": rnd.random() < 0.5, "kind": "life"}
 
 
